@@ -9,7 +9,7 @@ ASSUMPTIONS = ["every non-empty scheduler owns at least one non-forever job"]
 
 
 def harnesses(tier):
-    o = [O.c09_forever, O.c01_requirements, O.c12_unwindowed, O.c07_window]
+    o = [O.c09_forever, O.c01_requirements, O.c12_unwindowed, O.c07_window, O.c11_clean_exit]
     req = ("c09_cancelled_forever",)
     if tier == "quick":
         return [
